@@ -316,13 +316,25 @@ def make_selectors(sched):
     import selectors as _sel
 
     class Sel:
+        # keyed by descriptor number like the real selectors: a closed socket has descriptor -1, numbers are reused
         def __init__(self):
             self.socks = []
+            self.by_fd = {}
 
         def register(self, sock, ev, data=None):
+            fd = sock.fileno()
+            if fd < 0:
+                raise ValueError("Invalid file descriptor: %d" % fd)
+            if fd in self.by_fd:
+                raise KeyError("%r (FD %d) is already registered" % (sock, fd))
+            self.by_fd[fd] = sock
             self.socks.append((sock, ev))
 
         def unregister(self, sock):
+            fds = [fd for fd, s in self.by_fd.items() if s is sock]
+            if not fds:
+                raise KeyError("%r is not registered" % (sock,))
+            del self.by_fd[fds[0]]
             self.socks = [(s, e) for s, e in self.socks if s is not sock]
 
         def select(self, timeout=None):
@@ -368,6 +380,8 @@ class SSocket:
         self.tls = False
         self.records = []          # TLS: records that have arrived on the raw stream but are not decrypted yet
         self.id = len(net.sockets)
+        used = {s_.fd for s_ in net.sockets if not s_.closed}
+        self.fd = min(n for n in range(1000, 1002 + len(net.sockets)) if n not in used)     # lowest free number, like the OS
         net.sockets.append(self)
         self.last_exc = None
 
@@ -381,7 +395,7 @@ class SSocket:
         self.opts.append(a)
 
     def fileno(self):
-        return 1000 + self.id
+        return -1 if self.closed else self.fd
 
     def readable(self):
         """what select() on the descriptor reports: for TLS only the raw stream counts, bytes already
@@ -440,6 +454,7 @@ class SSocket:
             return r
         if self.reset:
             self.sched.ev("terr", cid=self.cid)
+            self.reset_seen = True
             self._raise(ConnectionResetError(errno.ECONNRESET, "Connection reset by peer"))
         self.sched.ev("teof", cid=self.cid)
         return b""
@@ -466,6 +481,9 @@ class SSocket:
         return k
 
     def shutdown(self, how=None):
+        if getattr(self, "reset_seen", False):
+            # a TCP socket whose connection was reset by the peer (and that has reported it) is not connected any more
+            raise OSError(errno.ENOTCONN, "Transport endpoint is not connected")
         self.sched.ev("tshutdown", cid=self.cid)
         self.shut = True
         self.eof = True
